@@ -77,6 +77,7 @@ def generate(seed, tier):
         data["offset"] = 0.0
     cfg = SC.gen_config(rw, N, backends=(W.backend_of({"world": world}),), allow_custom=True)
     if sim:
+        cfg["force_target_nf"] = False
         cfg["Jdes"] = min(cfg["Jdes"], 8)
         if cfg["scheduler"] == "custom":
             cfg["custom_plan"] = SC.gen_custom_plan(rw, N, cfg["fs"], max_bins=5, Lcap=40)
